@@ -21,7 +21,27 @@ static int fault_for(int op) {
     for (auto &f : g_faults) if (f.op == op && f.callno == n) { g_injected++; return f.mode; }
     return -1;
 }
-static void *w_init(void *a, void *h) { int f = fault_for(OPI_INIT); if (f == 0 || f == 2) return nullptr; void *d = g_saved.init(a, h); if (f == 1 && d) { g_saved.exit(d); return nullptr; } return d; }
+static int g_backend_for_shim = -1;
+static int shim_count(int backend) { switch (backend) { case ref::B_RS: return 8; case ref::B_NULL: case ref::B_ISA_V: case ref::B_ISA_C: return 5; } return 0; }
+// mode >= 3: run the back end's OWN init against a stand-in plugin handle that makes internal step (mode-3) fail
+static void *w_init(void *a, void *h) {
+    int f = fault_for(OPI_INIT);
+    if (f == 0 || f == 2) return nullptr;
+    if (f >= 3) {
+        int j = f - 3;
+        const char *tag = g_backend_for_shim == ref::B_RS ? "rs" : g_backend_for_shim == ref::B_NULL ? "null" : g_backend_for_shim == ref::B_ISA_V ? "isav" : "isac";
+        char name[64]; snprintf(name, sizeof name, "libshim_%s_%d.so", tag, j);
+        void *sh = dlopen(name, RTLD_NOW | RTLD_LOCAL);
+        if (!sh) { g_injected--; return g_saved.init(a, h); }       // shim not built for this back end/step: no fault
+        void *d = g_saved.init(a, sh);
+        if (d) { g_saved.exit(d); d = nullptr; }                     // must not happen: the stand-in cannot support an instance
+        dlclose(sh);
+        return d;
+    }
+    void *d = g_saved.init(a, h);
+    if (f == 1 && d) { g_saved.exit(d); return nullptr; }
+    return d;
+}
 static int w_encode(void *d, char **x, char **y, int b) { int f = fault_for(OPI_ENCODE); if (f == 0) return -1; if (f == 2) return -E_BACKENDINITERR; int r = g_saved.encode(d, x, y, b); return f == 1 ? -1 : r; }
 static int w_decode(void *d, char **x, char **y, int *m, int b) { int f = fault_for(OPI_DECODE); if (f == 0) return -1; if (f == 2) return -77; int r = g_saved.decode(d, x, y, m, b); return f == 1 ? -1 : r; }
 static int w_recon(void *d, char **x, char **y, int *m, int di, int b) { int f = fault_for(OPI_RECON); if (f == 0) return -1; if (f == 2) return -77; int r = g_saved.reconstruct(d, x, y, m, di, b); return f == 1 ? -1 : r; }
@@ -39,6 +59,7 @@ static op_stubs *table_for(int backend) {
 }
 struct Patch {
     explicit Patch(int backend) {
+        g_backend_for_shim = backend;
         g_real_tab = table_for(backend);
         g_saved = *g_real_tab;
         g_real_tab->init = w_init; g_real_tab->encode = w_encode; g_real_tab->decode = w_decode;
@@ -272,7 +293,7 @@ static void sweep_single() {
             for (int *dd : {&R.desc, &R.desc2}) if (*dd > 0) liberasurecode_instance_destroy(*dd);
             memcpy(counts, g_calls, sizeof counts);
         }
-        for (int op = 0; op < OPI_N; op++) for (int n = 0; n < counts[op]; n++) for (int mode = 0; mode < 3; mode++) {
+        for (int op = 0; op < OPI_N; op++) for (int n = 0; n < counts[op]; n++) for (int mode = 0; mode < 3 + (op == OPI_INIT ? shim_count(g.backend) : 0); mode++) {
             if ((counter++ % ns) != shard) continue;
             Case c; cfg_to(c, g); c.setl("faults", {op, n, mode}); c.set("salt", 1);
             sweep_case(c, run_c17);
@@ -293,7 +314,7 @@ static Case gen_c17() {
     c.setv("script", script);
     int nf = weighted({0, 5, 3, 2, 1});
     std::vector<int> faults;
-    for (int i = 0; i < nf; i++) { faults.push_back(weighted({2, 3, 3, 3, 2})); faults.push_back((int)pick(0, 6)); faults.push_back((int)pick(0, 2)); }
+    for (int i = 0; i < nf; i++) { int op = weighted({2, 3, 3, 3, 2}); faults.push_back(op); faults.push_back((int)pick(0, 6)); faults.push_back(op == OPI_INIT && coin() ? 3 + (int)pick(0, 7) : (int)pick(0, 2)); }
     c.setv("faults", faults);
     c.set("salt", pick(0, 1000));
     return c;
